@@ -1,6 +1,6 @@
 """C03 — the same model and seeds give the same run, every time and in every process.
 
-A zoo of 38 small models (simkit/c03_zoo.py) covers every component family of the property's quantifier.  One scenario =
+A zoo of 39 small models (simkit/c03_zoo.py) covers every component family of the property's quantifier.  One scenario =
 {model, params, user seed, other models that run earlier in the same interpreter, perturbation plan}.  `run(sc)` executes
 the model under the perturbations and compares one canonical digest = delivery log (time_ns, event_type, target name)
 recorded through the engine's own `sim.control.on_event` seam + the model's list of public statistics:
@@ -55,7 +55,7 @@ SELFTEST_RUNS = 3
 SHRINK_BUDGET_S = {"quick": 30.0, "thorough": 60.0}
 SHRINK_SKIP = ("params", "model")
 RULE = (
-    "quick: each case = a cohort of 8 different zoo models out of 38 (all judged; 40 cohorts = 320 model/seed pairs, every model >= 3 "
+    "quick: each case = a cohort of 8 different zoo models out of 39 (all judged; 40 cohorts = 320 model/seed pairs, every model >= 3 "
     "seeds), two interpreters per cohort + sampled literal subprocesses; thorough: each case = one of 34 zoo models (sources->servers, all queue policies incl. RED/CoDel/Balking, lossy/jittered Network, "
     "Raft, Paxos, Multi-/Flexible-Paxos, leader-election strategies, SWIM, LSM+WAL, BTree, CachedStore x 10 eviction "
     "configurations, SoftTTL, MultiTier, sharded/replicated store, primary-backup, chain, multi-leader, CRDTStore gossip, "
@@ -101,7 +101,8 @@ ZOO_PROBES = (
     "raft_second_election red_probabilistic_drop replicated_quorum_write rpc_retry softttl_stale_hit_refresh swim_indirect_probe "
     "swim_suspected_or_dead topic_replay topic_unsubscribe ttl_server_expired_entry_miss writeback_policy_flush"
 ).split()
-EXPECTED_PROBES += [f"probe.zoo.{n}" for n in ZOO_PROBES] + ["probe.zoo.cache_invalidated_then_evicted_again", "probe.zoo.seeded_policy_cleared_mid_run", "probe.zoo.sketch_cleared_mid_run",
+EXPECTED_PROBES += [f"probe.zoo.{n}" for n in ZOO_PROBES] + ["probe.zoo.sketch_number_items", "probe.zoo.provider_shared_distribution", "probe.zoo.provider_static_field_shadows_distribution",
+     "probe.zoo.cache_invalidated_then_evicted_again", "probe.zoo.seeded_policy_cleared_mid_run", "probe.zoo.sketch_cleared_mid_run",
      "probe.zoo.prepared_events_tied_with_runtime_events", "probe.zoo.parallel_cross_partition_loss",
      "probe.zoo.parallel_several_senders_per_window", "probe.zoo.random_partition_dropped_messages", "probe.spec_bundle_reused"]
 
@@ -148,7 +149,10 @@ BOUNDARY_SEEDS = [0, 0, 0, 1, 2**31 - 1, 2**32]    # non-negative: several seed=
 def _sibling(job: dict) -> dict:
     """The same model with the same structural parameters and different seeds (a user's second experiment)."""
     s = job["seed"]
-    return {**job, "seed": (s * 48271 + 11) % (2**31 - 1) if s not in (1,) else 2}
+    t = (s * 48271 + 11) % (2**31 - 1) if s not in (1,) else 2
+    if t % 5 == s % 5:          # zoo models pick seed-dependent variants (e.g. the numeric type of sketch items) by seed % 5
+        t += 1
+    return {**job, "seed": t}
 
 
 def gen(rng, tier):
